@@ -9,7 +9,7 @@ LEVEL_NOTE = ("Coq theorem C19_holds: for every sequence of update/show/delete/o
 TRUSTED = ["Coq 8.16.1 kernel; no axioms", "zstd + serde_json round trip of checkpoint.json.zst", "git rev-parse HEAD",
            "'run covers every target' after deletion is exercised by C05's scenarios (no-checkpoint mode)",
            "modelled, not verified: the Rust source (src/app/checkpoint.rs, src/core/tracking.rs, src/app/out.rs)"]
-RULE = ("histories with ~35% store operations (update [--id] [--pending], delete, out delete --all) between edits and commits; after each: show vs the update's own output, "
+RULE = ("histories with ~35% store operations (update [--id] [--pending], updates that fail because git cannot be run - also right after a delete -, delete, out delete --all) between edits and commits; after each: show vs the update's own output, "
         "id vs rev-parse HEAD, pending vs model; non-trivial = update that recorded a pending map, or the post-delete check; distinct by trail")
 def run(ctx, scale): gitscen.run(ctx, scale, "C19")
 def replay(ctx, case): return gitscen.replay(ctx, case, "C19")
